@@ -9,7 +9,7 @@ impl<K, V> View for OMap<K, V> { type V = Map<K, V>; uninterp spec fn view(&self
 impl<K, V> OMap<K, V> {
     pub uninterp spec fn order(&self) -> Seq<(K, V)>;
     #[verifier::external_body] pub proof fn lemma_order(&self)
-        ensures self@.dom().finite(), self@.dom().len() == self.order().len(),
+        ensures self@.dom().finite(), self@.dom().len() == self.order().len(), self.order().len() <= usize::MAX,
                 forall|i: int, j: int| 0 <= i < j < self.order().len() ==> self.order()[i].0 != self.order()[j].0,
                 forall|i: int| 0 <= i < self.order().len() ==> self@.contains_key(#[trigger] self.order()[i].0) && self@[self.order()[i].0] == self.order()[i].1,
                 forall|k: K| self@.contains_key(k) ==> exists|i: int| 0 <= i < self.order().len() && #[trigger] self.order()[i].0 == k { }
